@@ -726,6 +726,21 @@ func C15(run *mon.Run) {
 		{"Samples(5,-1)", func() error { return g.Samples(5, -1, func(i, j int) {}) }},
 		{"Samples(3,4)", func() error { return g.Samples(3, 4, func(i, j int) {}) }},
 		{"Samples(-1,-2)", func() error { return g.Samples(-1, -2, func(i, j int) {}) }},
+		// sizes at the ends of the int range (differences such as n-m wrap there)
+		{"Samples(MinInt,1)", func() error { return g.Samples(math.MinInt, 1, func(i, j int) {}) }},
+		{"Samples(MinInt+5,6)", func() error { return g.Samples(math.MinInt+5, 6, func(i, j int) {}) }},
+		{"Samples(MinInt,MaxInt)", func() error { return g.Samples(math.MinInt, math.MaxInt, func(i, j int) {}) }},
+		{"Samples(-1,MaxInt)", func() error { return g.Samples(-1, math.MaxInt, func(i, j int) {}) }},
+		{"Samples(5,MinInt)", func() error { return g.Samples(5, math.MinInt, func(i, j int) {}) }},
+		{"Samples(3,MaxInt)", func() error { return g.Samples(3, math.MaxInt, func(i, j int) {}) }},
+		{"Shuffle(MinInt)", func() error { return g.Shuffle(math.MinInt, func(i, j int) {}) }},
+		{"Shuffle(MinInt+1)", func() error { return g.Shuffle(math.MinInt+1, func(i, j int) {}) }},
+		{"Permutation(MinInt)", func() error { _, e := g.Permutation(math.MinInt); return e }},
+		{"SubPermutation(MinInt,1)", func() error { _, e := g.SubPermutation(math.MinInt, 1); return e }},
+		{"SubPermutation(MinInt+5,6)", func() error { _, e := g.SubPermutation(math.MinInt+5, 6); return e }},
+		{"SubPermutation(5,MinInt)", func() error { _, e := g.SubPermutation(5, math.MinInt); return e }},
+		{"SubPermutation(3,MaxInt)", func() error { _, e := g.SubPermutation(3, math.MaxInt); return e }},
+		{"SubPermutation(-1,MaxInt)", func() error { _, e := g.SubPermutation(-1, math.MaxInt); return e }},
 	} {
 		var err error
 		t.pos = 0
